@@ -91,3 +91,37 @@ package gocvss31
 //@   ensures[critical] (=> (= (ratingClass score) 4) (and (isnil result.1) (str= result.0 "CRITICAL")))
 //@   ensures[out_of_bounds] (=> (= (ratingClass score) (- 1)) (and (= result.1 ErrOutOfBoundsScore) (= (len result.0) 0)))
 //@   allocs 0
+
+// ---- scores (C03, C10, C11, C12); the post clauses are discharged by exhaustive case split ----
+
+//@ func (CVSS31).Impact(cvss31)
+//@   requires[wf] (wf31 cvss31)
+//@   ensures[spec] (<= (rabs (- (fp.to_real result) (impact31 cvss31))) 0.000000001)
+//@   allocs 0
+
+//@ func (CVSS31).Exploitability(cvss31)
+//@   requires[wf] (wf31 cvss31)
+//@   ensures[spec] (<= (rabs (- (fp.to_real result) (expl31 cvss31))) 0.000000001)
+//@   allocs 0
+
+//@ func (CVSS31).BaseScore(cvss31)
+//@   requires[wf] (wf31 cvss31)
+//@   inline Impact Exploitability
+//@   ensures[spec] (fp.eq result (tenth (base31K cvss31)))
+//@   ensures[one_decimal_in_scale] (exists-in (k 0 100) (fp.eq result (tenth k)))
+//@   ensures[rating_accepts] (>= (ratingClass result) 0)
+//@   allocs 0
+
+//@ func (CVSS31).TemporalScore(cvss31)
+//@   requires[wf] (wf31 cvss31)
+//@   ensures[spec] (fp.eq result (tenth (temporalFrom31 (base31K cvss31) cvss31)))
+//@   ensures[one_decimal_in_scale] (exists-in (k 0 100) (fp.eq result (tenth k)))
+//@   ensures[rating_accepts] (>= (ratingClass result) 0)
+//@   allocs 0
+
+//@ func (CVSS31).EnvironmentalScore(cvss31)
+//@   requires[wf] (wf31 cvss31)
+//@   ensures[spec] (fp.eq result (tenth (envFrom31 (envInner31K cvss31) cvss31)))
+//@   ensures[one_decimal_in_scale] (exists-in (k 0 100) (fp.eq result (tenth k)))
+//@   ensures[rating_accepts] (>= (ratingClass result) 0)
+//@   allocs 0
